@@ -46,6 +46,9 @@ type RunCfg struct {
 	// Pin, when set, restricts an enumerating engine to one enumerated case (used by replay files
 	// so that the replay shows exactly the failing fault).
 	Pin string `json:"pin,omitempty"`
+	// Strict doubles the thresholds of metric oracles (time / memory budgets). The shrinker runs with
+	// it so that a minimised case is never borderline and replays robustly.
+	Strict bool `json:"strict,omitempty"`
 }
 
 type Engine struct {
